@@ -7,9 +7,10 @@ import I2P.Driver.NetOps
 import I2P.Driver.VerifyOps
 import I2P.Driver.C16Ops
 import I2P.Driver.SpecOps
+import I2P.Driver.TwinOps
 open I2P.Driver
 
-def allOps : List (String × Op) := dataOps ++ kacOps ++ structOps ++ timeOps ++ baseOps ++ netOps ++ verifyOps ++ c16Ops ++ specOps
+def allOps : List (String × Op) := dataOps ++ kacOps ++ structOps ++ timeOps ++ baseOps ++ netOps ++ verifyOps ++ c16Ops ++ specOps ++ twinOps
 
 def step (line : String) : String :=
   match line.trimAscii.toString.splitOn " " with
